@@ -267,6 +267,54 @@ example :
     (step Cfg.fixed s (.free 0)).2 = -1 ∧ (step Cfg.fixed s (.steal (some 1) 0)).2 = -1 ∧
     (step Cfg.fixed s (.realloc none 0 100 false)).2 = -1 := by decide
 
+/-! ## talloc_move -/
+
+/-- **move_failure_changes_nothing**: a `talloc_move(new_parent, &var)` that answers NULL — the
+object has a reference, or the new parent lives in another CxMem — leaves the caller's variable
+pointing to the object and the heap as it was (`moveOp`: lean/Usual/C01/Talloc.lean; result =
+state, returned pointer, value of the variable afterwards).  The harness reads the variable back
+after every `move`. -/
+theorem move_failure_changes_nothing (s : State) (rk : Nat → Nat) (hwf : wfOK s = true) (hrk : Ranked rk s)
+    (newp : Option Id) (o : Id) (h : (moveOp Cfg.fixed s newp o).2.1 = none) :
+    (moveOp Cfg.fixed s newp o).2.2 = some o ∧ absState (moveOp Cfg.fixed s newp o).1 = absState s := by
+  unfold moveOp at h ⊢
+  by_cases hrc : (step Cfg.fixed s (.steal newp o)).2 = 0
+  · simp [hrc] at h
+  · simp only [hrc, if_false]
+    refine ⟨trivial, ?_⟩
+    have hor : (step Cfg.fixed s (.steal newp o)).2 = 0 ∨ (step Cfg.fixed s (.steal newp o)).2 = -1 := by
+      simp only [step]
+      split
+      · exact Or.inr rfl
+      · split
+        · exact Or.inr rfl
+        · split
+          · exact Or.inl rfl
+          · exact Or.inr rfl
+    have hm1 : (step Cfg.fixed s (.steal newp o)).2 = -1 := hor.resolve_left hrc
+    exact failed_op_unchanged s (.steal newp o) rk hwf hrk hm1
+
+/-- **move_success_is_steal**: a `talloc_move` that answers the pointer has set the caller's
+variable to NULL, and the heap is exactly what `talloc_steal(new_parent, ptr)` makes of it. -/
+theorem move_success_is_steal (s : State) (newp : Option Id) (o : Id) (p : Id)
+    (h : (moveOp Cfg.fixed s newp o).2.1 = some p) :
+    p = o ∧ (moveOp Cfg.fixed s newp o).2.2 = none ∧
+    (moveOp Cfg.fixed s newp o).1 = (step Cfg.fixed s (.steal newp o)).1 ∧
+    (step Cfg.fixed s (.steal newp o)).2 = 0 := by
+  unfold moveOp at h ⊢
+  by_cases hrc : (step Cfg.fixed s (.steal newp o)).2 = 0
+  · simp only [hrc, if_true, Option.some.injEq] at h ⊢
+    exact ⟨h.symm, trivial, trivial, trivial⟩
+  · simp [hrc] at h
+
+/-- non-vacuity: a move of a referenced object fails and keeps the variable, a move across
+allocation contexts fails too, a move onto a sibling works and clears the variable -/
+example :
+    let s := runOps Cfg.fixed {} [.alloc none 8 false false, .alloc none 8 false false,
+      .alloc (some 0) 8 false false, .reference (some 1) 2 false, .alloc none 8 true false]
+    (moveOp Cfg.fixed s (some 1) 2).2 = (none, some 2) ∧ (moveOp Cfg.fixed s (some 0) 4).2 = (none, some 4) ∧
+    (moveOp Cfg.fixed s (some 1) 0).2 = (some 0, none) := by decide
+
 /-! ## everything is returned -/
 
 /-- **all_roots_freed_balanced**: in a well-formed state with acyclic holder graph every live
